@@ -11,8 +11,9 @@ from ..tracelib import first_diff, normalize
 
 PID = "C15"
 TYPES_ALL = ["RuntimeError", "AbortRetryError", "RetryExhaustedError", "CircuitOpenError",
-             "TimeoutError", "StopIteration", "asyncio.TimeoutError"]
-TYPES_QUICK = ["RuntimeError", "AbortRetryError", "StopIteration"]
+             "TimeoutError", "StopIteration", "asyncio.TimeoutError", "TypeError", "ValueError",
+             "KeyError", "AttributeError", "OSError", "AssertionError"]
+TYPES_QUICK = ["RuntimeError", "AbortRetryError", "StopIteration", "TypeError"]
 SITES = {"metric": "metric", "log": "log", "before_sleep": "bsleep"}
 
 META = {
@@ -62,6 +63,14 @@ def tasks(tier):
                    hook_kind=hk, max_unknown=None, timeline=True,
                    breaker=brk_closed if e.startswith(("Policy", "AsyncPolicy")) else None)
         out.append({"family": "hook-faults-kinds", "cfg": cfg, "entry": e, "bound": 1, "weight": 4})
+    # hooks that take time (and then raise): with a deadline tight enough for that time to decide
+    # whether another attempt fits
+    for dl, e in itertools.product([3, 5], ["Retry.execute", "AsyncRetry.call", "Policy.call",
+                                            "AsyncPolicy.execute"]):
+        cfg = dict(M=3, alphabet=["ok", "x:T", "r:T"], hook_dur=1, deadline=dl, durs=[0, 1],
+                   max_unknown=None, strat_menu=[1, 0], timeline=True,
+                   breaker=brk_closed if e.startswith(("Policy", "AsyncPolicy")) else None)
+        out.append({"family": "hook-faults-slow", "cfg": cfg, "entry": e, "bound": 1, "weight": 4})
     for e in ["RetrySet.call", "AsyncRetrySet.execute", "RetryPolicySet.call",
               "AsyncRetryPolicySet.execute"]:
         cfg = dict(M=3, alphabet=["ok", "x:T", "r:T"], abort=True, before_sleep="policy",
